@@ -33,26 +33,37 @@ def main():
 
             from formak import cpp
 
+            part_errors = {}
             for kind, name in (("ekf", "filter"), ("model", "model")):
-                cfg = cpp.Config(**models.cpp_config(m))  # one caller-owned Config object for both generations
-                cfg_before = dataclasses.asdict(cfg)
-                res, header, source = H.generate(m, wd, ns="gen", name=name, kind=kind, config=cfg)
-                rec[f"{kind}_header"] = hashlib.sha256(open(header, "rb").read()).hexdigest()
-                rec[f"{kind}_source"] = hashlib.sha256(open(source, "rb").read()).hexdigest()
-                rec[f"{kind}_config_unchanged"] = dataclasses.asdict(cfg) == cfg_before
-                # generating twice in one process (same Config object) must also be identical
-                res, header, source = H.generate(m, wd, ns="gen", name=name, kind=kind, config=cfg)
-                again = hashlib.sha256(open(header, "rb").read()).hexdigest() + hashlib.sha256(open(source, "rb").read()).hexdigest()
-                rec[f"{kind}_repeat_same"] = again == rec[f"{kind}_header"] + rec[f"{kind}_source"]
-            f = models.compile_py_ekf(m, common_subexpression_elimination=False)
-            rec["py_layout"] = {
-                "arglist": [str(s) for s in models.compile_py_model(m, common_subexpression_elimination=False).arglist],
-                "state": [str(s) for s in f.arglist_state],
-                "control": [str(s) for s in f.arglist_control],
-                "calibration": [str(s) for s in f.arglist_calibration],
-                "readings": {k: [str(r) for r in f.sensor_models[k].readings] for k in sorted(f.sensor_models)},
-                "sensor_keys_sorted": sorted(f.sensor_models),
-            }
+                try:
+                    cfg = cpp.Config(**models.cpp_config(m))  # one caller-owned Config object for both generations
+                    cfg_before = dataclasses.asdict(cfg)
+                    res, header, source = H.generate(m, wd, ns="gen", name=name, kind=kind, config=cfg)
+                    rec[f"{kind}_header"] = hashlib.sha256(open(header, "rb").read()).hexdigest()
+                    rec[f"{kind}_source"] = hashlib.sha256(open(source, "rb").read()).hexdigest()
+                    rec[f"{kind}_config_unchanged"] = dataclasses.asdict(cfg) == cfg_before
+                    # generating twice in one process (same Config object) must also be identical
+                    res, header, source = H.generate(m, wd, ns="gen", name=name, kind=kind, config=cfg)
+                    again = hashlib.sha256(open(header, "rb").read()).hexdigest() + hashlib.sha256(open(source, "rb").read()).hexdigest()
+                    rec[f"{kind}_repeat_same"] = again == rec[f"{kind}_header"] + rec[f"{kind}_source"]
+                except Exception as e:
+                    part_errors[kind] = f"{type(e).__name__}: {e}"[:300]
+            try:
+                f = models.compile_py_ekf(m, common_subexpression_elimination=False)
+                rec["py_layout"] = {
+                    "arglist": [str(s) for s in models.compile_py_model(m, common_subexpression_elimination=False).arglist],
+                    "state": [str(s) for s in f.arglist_state],
+                    "control": [str(s) for s in f.arglist_control],
+                    "calibration": [str(s) for s in f.arglist_calibration],
+                    "readings": {k: [str(r) for r in f.sensor_models[k].readings] for k in sorted(f.sensor_models)},
+                    "sensor_keys_sorted": sorted(f.sensor_models),
+                }
+            except Exception as e:
+                part_errors["py"] = f"{type(e).__name__}: {e}"[:300]
+            if part_errors:
+                rec["part_errors"] = part_errors
+                if not m.get("maybe_refused"):
+                    rec["error"] = "; ".join(f"{k}: {v}" for k, v in sorted(part_errors.items()))[:500]
         except Exception as e:  # reported to the parent, which decides
             rec["error"] = f"{type(e).__name__}: {e}"[:500]
         out[item["id"]] = rec
